@@ -119,6 +119,7 @@ def _(self: Obj['rbql_engine.UniqWriter'], subwriter: Obj['rbql_engine.RBQLOutpu
     ghost_update(self.finished, False)
     ghost_update(self.sorted_iface, False)
     ensures(uniq_inv(self), 'inv')
+    ensures(same(self.subwriter, subwriter), 'fields')
     modifies(self)
 
 
@@ -172,6 +173,7 @@ def _(self: Obj['rbql_engine.UniqCountWriter'], subwriter: Obj['rbql_engine.RBQL
     ghost_update(self.finished, False)
     ghost_update(self.sorted_iface, False)
     ensures(uc_inv(self), 'inv')
+    ensures(same(self.subwriter, subwriter), 'fields')
     ensures(len(self.subwriter.offered) == 0 and not self.subwriter.refused and not self.subwriter.finished, 'sub_untouched')
     modifies(self)
 
